@@ -925,8 +925,12 @@ fn probe_registry_lookup(arg: u64, sim: &Sim, obs: &Obs) -> ProbeResult {
             }
         }
     }
-    for _ in 0..3 {
-        let n = rng.range(1, 6) as usize;
+    for round in 0..4 {
+        // three small batches and one far larger than any the marketplace itself would send
+        let n = if round == 3 { rng.range(51, 80) as usize } else { rng.range(1, 6) as usize };
+        if round == 3 {
+            r.hit("multi_lookup_over_50_entries");
+        }
         let mut req: Vec<String> = vec![];
         for _ in 0..n {
             req.push(rng.pick(&universe).clone());
@@ -937,7 +941,7 @@ fn probe_registry_lookup(arg: u64, sim: &Sim, obs: &Obs) -> ProbeResult {
         };
         let has_unreg = req.iter().any(|c| !obs.registry.contains_key(c));
         let res = rq(&json!({"royalty_info_multi": {"nft_contracts": req}}));
-        r.case(&[b"multi", &[n as u8, has_dup as u8, has_unreg as u8, res.is_ok() as u8]]);
+        r.case(&[b"multi", &[n.min(60) as u8, has_dup as u8, has_unreg as u8, res.is_ok() as u8]]);
         if has_dup {
             r.hit("multi_lookup_with_duplicates");
         }
